@@ -12,8 +12,6 @@ THEOREMS = [
     "Mesa.Viz.C20_space_agents_exactly_once",
     "Mesa.Viz.C20_collect_one_entry_per_agent",
     "Mesa.Viz.C20_entry_is_portrayal_or_default",
-    "Mesa.Viz.C20_collect_optional_arrays",
-    "Mesa.Viz.C20_location_rule",
     "Mesa.Viz.C20_V3_inplace_pop_refuted",
     "Mesa.Viz.C20_inplace_agrees_on_unshared_dicts",
     "Mesa.Viz.C20_scatter_partition",
@@ -25,13 +23,16 @@ THEOREMS = [
     "Mesa.Viz.C20_empty_space_draws_nothing",
     "Mesa.Viz.C20_default_size_defined",
     "Mesa.Viz.C20_draw_kwargs",
-    "Mesa.Viz.C20_draw_kwargs_apply_to_every_marker",
     "Mesa.Viz.C20_hex_marker_at_hexagon_centre",
     "Mesa.Viz.C20_distinct_locations_distinct_positions",
+    "Mesa.Viz.C20_markers_inside_the_limits",
+    "Mesa.Viz.C20_network_markers_at_layout_positions",
+    "Mesa.Viz.C20_plot_one_line_per_requested_measure",
     "Mesa.Viz.C20_altair_one_row_per_agent",
     "Mesa.Viz.C20_altair_row_values",
     "Mesa.Viz.C20_altair_chart_encoding",
-    "Mesa.Viz.C20_altair_uniform_portrayal_encoded",
+    "Mesa.Viz.C20_altair_portrayal_encoded_partial",
+    "Mesa.Viz.C20_A1_first_row_encoding_refuted",
     "Mesa.Viz.C20_layer_image_orientation",
     "Mesa.Viz.C20_layer_hex_orientation",
     "Mesa.Viz.C20_V8_ravel_refuted",
@@ -43,16 +44,21 @@ THEOREMS = [
     "Mesa.Viz.C20_layers_drawn_are_the_requested_ones",
     "Mesa.Viz.C20_layers_refused",
     "Mesa.Viz.C20_draw_space_with_layers",
-    "Mesa.Viz.C20_V13_range_without_extent",
     "Mesa.Viz.C20_layer_color_modes_agree_in_range",
     "Mesa.Viz.C20_check_accepts_iff_binds_by_keyword",
-    "Mesa.Viz.C20_check_refuses_var_positional",
     "Mesa.Viz.C20_split_lossless_disjoint",
     "Mesa.Viz.C20_creator_checks_all_params",
     "Mesa.Viz.C20_creator_params_lossless",
     "Mesa.Viz.C20_user_inputs_one_per_adjustable_param",
     "Mesa.Viz.C20_creator_accepts_iff_model_can_be_created",
     "Mesa.Viz.C20_input_change_keeps_the_parameter_set",
+    "Mesa.Viz.C20_ctrl_step_button",
+    "Mesa.Viz.C20_ctrl_steps_never_go_back",
+    "Mesa.Viz.C20_ctrl_every_reset_gets_the_whole_parameter_set",
+    "Mesa.Viz.C20_ctrl_reset_uses_latest_inputs",
+    "Mesa.Viz.C20_ctrl_play_runs_to_the_models_stop",
+    "Mesa.Viz.C20_ctrl_pause",
+    "Mesa.Viz.C20_ctrl_running_flag_is_the_models",
 ]
 COUNTS = {"quick": 1600, "thorough": 60000}
 TRUSTED = [
@@ -60,7 +66,9 @@ TRUSTED = [
     "matplotlib, property layers: imshow(origin='lower') keeps the array, vmin / vmax / alpha / cmap it is given (read back through get_array, norm, get_alpha, get_cmap); a colormap maps level k/span to a colour of its own (the level behind a hexagon's colour is searched among the multiples of 1/span); Colorbar widens a range without extent by nonsingular(expander=0.1) (undone when read back) and does what it likes with an inverted range (not compared); the colour of a name (to_rgba)",
     "Altair: Chart.to_dict() reports the rows given to alt.Data(values=...), the encoding channels (x / y type, colour, size, tooltip fields) and the mark properties unchanged; what Vega-Lite renders from them (a nominal colour scale maps colour names to scheme colours) is not modelled",
     "solara/reacton: solara.render runs the component function, its children and then its effects once (used for SpaceMatplotlib, SpaceAltair, ModelCreator; the Axes / Chart are taken from the post_process hook; the inputs UserInputs creates are recorded at solara's boundary — the calls of solara.SliderInt / SliderFloat / Select / Checkbox / InputText —, an input is changed by calling its on_value); a reactive value set outside a render keeps the value",
-    "networkx spring_layout(seed=0) is deterministic; the model keeps a node's label for its layout position",
+    "solara, the controls: SolaraViz is rendered by solara.render with solara.Sidebar / solara.AppBar replaced by solara.Column (outside an AppLayout their children are not rendered); buttons, sliders, the checkbox and the inputs are operated through the on_click / on_value recorded at solara's boundary, a disabled button is not clicked; threads are not run: the play loop is the function handed to solara.lab.use_task, called in the harness' thread with time.sleep (of mesa.visualization.solara_viz) as the point where the scripted user acts; that solara starts that function when playing / running change, cancels it on unmount, and what the visualisation thread does (use_threads) is not modelled; reacton's reconciliation by position (why toggling the threads checkbox remounts the controller) is observed, not modelled beyond its effect",
+    "measure plots: Axes.plot keeps the y data, label and colour it is given (read back through ax.lines); a line plotted without a colour gets the next colour of the cycle; pandas df.loc[:, m] raises KeyError(m) for a measure that was not collected",
+    "networkx spring_layout(seed=0) is deterministic; under the default layout the model keeps a node's label for its layout position (under a caller-supplied layout — `drawnet` — positions are the layout's own and the lookup by label is in the model); the edges (nx.draw_networkx_edges) are not modelled and not drawn there (draw_grid=False)",
     "numpy boolean masking / np.unique / set() over the marker and z-order arrays (the model keeps the distinct values; the order of the scatter calls is not compared)",
     "positions are exact integers (hex grids in units of sqrt(3)/2 and 1/2); IEEE rounding of the hex transform is checked with tolerance 1e-6, not modelled",
     "CPython keyword binding: the oracle calls the generated __init__ for real; `bindsByKeyword` in Props/C20.lean is that rule written out",
@@ -70,23 +78,23 @@ ASSUMPTIONS = [
     "portrayal values are colour names, RGB / RGBA tuples (also mixed, V14), marker symbols, ints; alpha as a float; numbers to be colour-mapped are outside the generator",
     "2-D spaces",
 ]
-RULE = ("40% space scenarios: one of 12 space classes (4 mesa.space grids, 3 discrete_space grids, 2 networks with 1-6 nodes, shuffled / "
-        "non-contiguous node labels and possibly no edges, Voronoi, 2 continuous spaces), sizes 1-5, 0-6 agents with several per cell, "
+RULE = ("3% plot scenarios: a model with a real DataCollector over 1-3 measures with 0-5 collected rows, PlotMatplotlib (through make_plot_component and solara.render, Axes taken from the post_process hook) for string / dict / list / tuple / other requests incl. measures not collected and repeated ones, the backend dispatch; 12% ctrl scenarios: the real SolaraViz on a model class taking **kw that stops at kw[stop] (ModelController, or SimulatorController with an ABMSimulator), model_params of 0-4 entries (fixed ints / dicts, int / float Slider objects, option dicts of the five input types, rarely an unsupported type), render interval 1-5, threads on / off, then 3-12 user actions: Step, play / pause, Reset, render-interval and threads changes, input changes (also of names without an input), and play loops of 0-4 scripted ticks during whose sleeps the user does nothing / pauses / resets / moves the render slider / changes an input and during whose steps (15%) clicks pause; observed after every action: model.steps, model.running, the buttons (label, disabled), the render interval, the update counter, the keyword arguments the current model was created with; 40% space scenarios: one of 12 space classes (4 mesa.space grids, 3 discrete_space grids, 2 networks with 1-6 nodes, shuffled / "
+        "non-contiguous node labels and possibly no edges, Voronoi with 1-6 centroids, 2 continuous spaces; half of the mesa.space ContinuousSpaces with an origin x_min, y_min in -3..3), sizes 1-5 (4% of the mesa.space grids / ContinuousSpace: width or height 0; 3% of the networks: no node — spaces without room, which draw_space / Altair refuse), 0-6 agents with several per cell, "
         "agents never placed, a pool of 0-4 portrayal dict *objects* shared between agents (keys color/size/marker/zorder, colours as names and as RGB(A) tuples — none / all / mixed —, the optional "
         "alpha/edgecolors/linewidths under an all/none/some policy, unsupported keys), interleaved place/move/remove/dict-rewrite/"
-        "re-portray ops and observations collect_agent_data / draw_space (Agg; also with plotting keywords alpha / edgecolors / linewidths) / Altair _draw_grid (rows, encoded channels, x/y type, tooltip fields, default "
-        "mark size) / the solara components SpaceMatplotlib and SpaceAltair with the portrayal and with their default portrayals / heap dump / the default marker size (all agents drawn with an empty portrayal) / property layers "
+        "re-portray ops and observations collect_agent_data / draw_space (Agg; also with plotting keywords alpha / edgecolors / linewidths; on networks also with a caller-supplied layout algorithm — a table node -> position over most / all / more than the nodes, distinct or coinciding positions, rarely empty — and keywords for it) / Altair _draw_grid (rows, encoded channels, x/y type, tooltip fields, default "
+        "mark size) / the solara components SpaceMatplotlib and SpaceAltair with the portrayal and with their default portrayals / heap dump / the axis limits draw_space asks for / the default marker size (all agents drawn with an empty portrayal) / property layers "
         "(1-3 named layers, requests of 1-4 entries in any order incl. names the space has no layer for; colour or colormap or neither; "
         "alpha absent / 25 / 50 / 100 %; range automatic, one-sided, explicit incl. without extent, cutting the data and inverted; colour bar "
         "absent / on / off; constant layers; float and int layers; drawn repeatedly; on non-grid classes), including observations of the space without agents; "
-        "60% parameter scenarios: 1-3 generated __init__ signatures (instance parameter named self/this, positional-only, missing; "
+        "45% parameter scenarios: 1-3 generated __init__ signatures (instance parameter named self/this, positional-only, missing; "
         "positional-only, positional-or-keyword, *args, keyword-only, **kwargs under any name, defaults) each with 2-6 key sets "
         "(required names mostly present, extras, the instance's name, positional-only names) through _check_model_params, "
         "ModelCreator (solara.render) and split_model_params, and through ModelCreator on full parameter dicts (fixed ints and dicts, int / float "
         "Slider objects, option dicts of the five supported and of unsupported types, with / without value and label) followed by changes of "
         "inputs (model_parameters read back after each); plus, on every run, the exhaustive enumeration of all signature shapes "
         "with <= 3 parameters after the instance parameter x all key subsets (376 signatures, 6.1k checks); non-trivial = an observation of >= 2 agents or a check against >= 3 "
-        "parameters; distinct = distinct op-line sequences (sha1)")
+        "parameters or a controller history that stepped the model and reset it; distinct = distinct op-line sequences (sha1)")
 
 
 def _load_known():
@@ -129,7 +137,21 @@ def builtin_corpus():
 run_impl = V.run_impl
 oracle = V.oracle
 
-KNOWN = {}
+KNOWN = {
+    # open finding A1: Altair's `_draw_grid` reads the colour / size channel off the first agent's row.  Identified by its
+    # call site and shape: a chart of rows of which some, not all, carry the key (the oracle clause names exactly that)
+    "A1": {
+        "scenario": [
+            "scenario space multi 2 2",
+            "dict 0 color=red size=5",
+            "place 1 0 0",
+            "place 2 1 1",
+            "portray 2 0",
+            "altair",
+        ],
+        "matches": lambda sc, clause: clause.split(":")[0] == "altair-encoding-first-row",
+    },
+}
 
 
 def nontrivial(sc, obs):
@@ -143,6 +165,11 @@ def nontrivial(sc, obs):
             return True
     if sc.lines[0] == "scenario params":
         return any(l.startswith("sig ") and len(l.split()) >= 4 for l in sc.lines)
+    if sc.lines[0] == "scenario plot":
+        return any(o.count(" | ") >= 2 for o in obs)
+    if sc.lines[0].startswith("scenario ctrl"):
+        # the model was stepped and a reset created another one
+        return any(re.match(r"ok gen=[1-9]", o) for o in obs) and any(re.search(r" steps=[1-9]", o) for o in obs)
     return False
 
 
@@ -164,6 +191,16 @@ def tags(sc, obs):
                     yield "branch:observe-empty-space"
                 if o.startswith("err"):
                     yield "result:" + o
+            if w[0] == "frame":
+                yield "frame:" + (o if not o.startswith("ok x") else "degenerate-limits" if re.search(r"=(\S+)\.\.\1( |$)", o) else "ok")
+            if w[0] == "drawnet":
+                yield "drawnet:" + (" ".join(o.split()[:2]) if o.startswith("err") else "same-position-twice" if len(set(t.split(":", 1)[1] for t in w[1:])) < len(w) - 1
+                                    else "ok")
+                nodes = {t.split(":")[0] for t in w[1:]}
+                if any(n not in w0[5:] for n in nodes):
+                    yield "drawnet:layout-knows-a-node-the-graph-lacks"
+                if any(n not in nodes for n in w0[5:]) and o.startswith("ok"):
+                    yield "drawnet:layout-lacks-an-empty-node"
             if w[0] == "drawk":
                 yield "drawk:" + ("refused" if o.startswith("err Value conflict") else "dropped" if w0[2] in ("cs", "xcs", "vor") else "applied")
             if w[0] in ("draw", "drawc", "drawc0", "drawk") and o.count(" | ") >= 2:
@@ -188,6 +225,67 @@ def tags(sc, obs):
         refs = [p[2] for p in ps if p[2] != "-"]
         if len(refs) != len(set(refs)):
             yield "branch:shared-portrayal-dict"
+    elif w0[1] == "plot":
+        for l, o in zip(sc.lines[1:], obs[1:]):
+            w = l.split()
+            yield "op:plot-" + w[0]
+            if w[0] == "plot":
+                yield "plot:" + w[1] + ":" + (" ".join(o.split()[:2]) if o.startswith("err") else f"{o.count(' | ')}-lines")
+                if len(w[2:]) != len(set(t.split(":")[0] for t in w[2:])):
+                    yield "plot:a-measure-twice"
+            if w[0] == "backend":
+                yield "plot-backend:" + o
+            if w[0] == "data" and w[1:] and w[1].endswith("=-"):
+                yield "plot:empty-table"
+    elif w0[1] == "ctrl":
+        yield "ctrl:" + w0[2]
+        prev = None
+        changed = False
+        for l, o in zip(sc.lines[1:], obs[1:]):
+            w = l.split()
+            yield "op:ctrl-" + w[0]
+            f = dict(t.split("=", 1) for t in o.split()[1:] if "=" in t) if o.startswith("ok ") else None
+            if w[0] == "viz":
+                yield "ctrl-viz:" + ("ok" if f else " ".join(o.split()[:2]))
+                yield "ctrl-viz-threads:" + w[2]
+                for t in w[4:]:
+                    g = t.split(":")[1].split("/")
+                    yield "ctrl-param:" + (g[0] if g[0] != "spec" else g[1] if g[1] in V.INPUT_TYPES else "unsupported-type")
+            elif f is None:
+                yield f"ctrl-{w[0]}:" + o
+            elif w[0] in ("change",):
+                changed = True
+            elif w[0] == "threads" and prev and (prev["playing"], prev["running"]) != (f["playing"], f["running"]):
+                yield "ctrl-branch:threads-toggle-remounts-controller"
+            elif w[0] == "step":
+                yield "ctrl-step:" + ("model-stops" if prev and prev["mrunning"] == "1" and f["mrunning"] == "0" else "ok")
+            elif w[0] == "loop" and prev:
+                for t in w[1:]:
+                    sl, _, j = t.partition("@")
+                    yield "ctrl-loop-ev:" + sl.split("=")[0].split(":")[0] + ("@" if j else "")
+                    if sl.startswith("set:"):
+                        changed = True
+                if not (prev["playing"] == "1" and prev["running"] == "1"):
+                    yield "ctrl-loop:not-started"
+                else:
+                    ticks = int(f["updates"]) - int(prev["updates"])
+                    yield ("ctrl-loop-end:" + ("model-stopped" if f["running"] == "0" and f["playing"] == "1" else
+                                               "paused" if f["playing"] == "0" else "other"))
+                    if f["gen"] != prev["gen"]:
+                        yield "ctrl-loop:reset-during-play"
+                    d = int(f["steps"]) - int(prev["steps"])
+                    if f["gen"] == prev["gen"] and any("@" in t for t in w[1:]) and d % max(1, int(prev["render"])) != 0:
+                        yield "ctrl-branch:tick-cut-short-by-pause-during-step"
+                    if f["gen"] == prev["gen"] and f["mrunning"] == "0" and prev["mrunning"] == "1" and \
+                            "stop:" in f["kwargs"] and int(f["steps"]) > int(re.search(r"stop:(\d+)", f["kwargs"]).group(1)):
+                        yield "ctrl-branch:tick-overruns-the-models-stop"
+                    yield "ctrl-loop-ticks:" + (str(ticks) if ticks < 4 else "4+")
+            if w[0] in ("reset", "loop") and f and prev and f["gen"] != prev["gen"]:
+                yield "ctrl-reset:" + ("after-input-change" if changed else "initial-params")
+                if f["kwargs"] == "-":
+                    yield "ctrl-reset:no-params"
+            if f:
+                prev = f
     else:
         for l, o in zip(sc.lines[1:], obs[1:]):
             w = l.split()
